@@ -289,7 +289,7 @@ def spectrum_cases(H, rng, kind, per_class, quick):
         a = cs["args"]
         for key in ("min", "max", "mean", "std"):
             a[key] = a[key] * f
-        cs["ops"] = [(o[0], o[1] * f) if o[0] != "bins" else o for o in cs["ops"]]
+        cs["ops"] = [(o[0], o[1] * f) if o[0] not in ("bins", "bad") else o for o in cs["ops"]]
         cs["scale"] = [k]
         out.append(tag(cs, "scaled", mid=[rng.randint(1, 3)]))
     return out
